@@ -196,9 +196,9 @@ MAX_ROUNDS = 6  # distinct root causes enumerated per sub-check and shard
 
 
 def _hyp_settings(n, steps=None):
-    from hypothesis import HealthCheck, Phase, settings
+    from hypothesis import HealthCheck, Phase, Verbosity, settings
 
-    kw = dict(max_examples=n, database=None, deadline=None, report_multiple_bugs=False,
+    kw = dict(verbosity=Verbosity.quiet, max_examples=n, database=None, deadline=None, report_multiple_bugs=False,
               derandomize=False, suppress_health_check=list(HealthCheck),
               phases=(Phase.generate, Phase.shrink), print_blob=False)
     if steps is not None:
@@ -215,6 +215,7 @@ def safe_run(ctx, sub, case):
     """run the oracle; an exception that escapes from inside the library while the harness
     was performing an operation it expects to succeed is a violation (keyed by where it was
     raised), anything else is a harness error and propagates"""
+    env.reset_library_state()
     try:
         return sub.run(ctx, case)
     except Abandon:
@@ -290,6 +291,7 @@ def build_machine(ctx, interp_factory, init_strategy, op_strategy, summarize):
             ctx.current = self.case
             if ctx.out_of_time():
                 return
+            env.reset_library_state()
             self._do(lambda: setattr(self, "it", interp_factory(ctx, init)))
 
         @rule(op=op_strategy)
